@@ -17,6 +17,8 @@
 #include "lib_stable/reed-solomon_gf_2_8/of_reed-solomon_gf_2_8_includes.h"
 #include "lib_stable/reed-solomon_gf_2_m/of_reed-solomon_gf_2_m_includes.h"
 #include "lib_stable/ldpc_staircase/of_ldpc_includes.h"
+#include "lib_stable/2d_parity_matrix/of_2d_parity_includes.h"
+#include <unistd.h>
 
 extern UINT64 of_seed;
 static const char *PROP;
@@ -325,12 +327,112 @@ static void ldpc_point (const pt_t *p)
 	{ char nm[48]; snprintf (nm, sizeof nm, "ldpc:null_last=%d:extra=%d:N1even=%d", enc_null ? 1 : 0, extra, !(p->N1 & 1)); vf_outcome (nm, 1); }
 }
 
+
+/* ------------------------------------------------------------------ 2D parity point (C16: structure + encoder) */
+static void p2d_probe (long it, void *arg)
+{
+	of_session_t *s = NULL;
+	of_2d_parity_parameters_t p;
+	(void) arg;
+	memset (&p, 0, sizeof p); p.nb_source_symbols = (UINT32) (it / 64); p.nb_repair_symbols = (UINT32) (it % 64); p.encoding_symbol_length = 4;
+	if (of_create_codec_instance (&s, OF_CODEC_2D_PARITY_MATRIX_STABLE, OF_ENCODER_AND_DECODER, 0) != OF_STATUS_OK || !s) _exit (1);
+	if (of_set_fec_parameters (s, (of_parameters_t *) &p) != OF_STATUS_OK) _exit (1);
+	of_release_codec_instance (s);
+}
+static void p2d_point (const pt_t *p)
+{
+	int k = p->k, r = p->r, n = k + r, len = k + 2, i, j, a, b, rc, mode;
+	of_session_t *s = NULL;
+	of_2d_parity_parameters_t prm;
+	char sig[200], ak[32], af[32];
+	snprintf (g_case, sizeof g_case, "2d k=%d r=%d", k, r);
+	memcpy (vf_slot (), g_case, sizeof g_case);
+	rc = vf_run_isolated (p2d_probe, (long) k * 64 + r, NULL, 20, ak, af, sizeof ak);
+	if (rc > 0 || rc == -1) { snprintf (sig, sizeof sig, "call=set_fec_parameters|kind=%s", rc == -1 ? "hang" : "crash"); viol ("C16", sig); return; }
+	if (rc != 0) { vf_outcome ("2d:rejected", 1); return; }
+	vf_outcome ("2d:accepted", 1);
+	memset (&prm, 0, sizeof prm); prm.nb_source_symbols = (UINT32) k; prm.nb_repair_symbols = (UINT32) r; prm.encoding_symbol_length = (UINT32) len;
+	if (of_create_codec_instance (&s, OF_CODEC_2D_PARITY_MATRIX_STABLE, OF_ENCODER, 0) != OF_STATUS_OK || !s) return;
+	if (of_set_fec_parameters (s, (of_parameters_t *) &prm) != OF_STATUS_OK) { of_release_codec_instance (s); return; }
+	{
+		of_mod2sparse *m = ((of_2d_parity_cb_t *) s)->pchk_matrix;
+		of_mod2entry *e;
+		bitmat *H = bm_new (r, n);
+		int cls[64], shared[64][64], colw, bad = 0, nent = 0, changed;
+		if (!m || m->n_rows != r || m->n_cols != n) { viol ("C16", "kind=matrix-has-wrong-dimensions"); bm_free (H); of_release_codec_instance (s); return; }
+		for (i = 0; i < r; i++)
+			for (e = of_mod2sparse_first_in_row (m, i); !of_mod2sparse_at_end_row (e); e = of_mod2sparse_next_in_row (e)) {
+				int esi = e->col < r ? e->col + k : e->col - r;
+				if (esi < 0 || esi >= n) { bad = 1; continue; }
+				bm_set (H, i, esi); nent++;
+			}
+		if (bad) viol ("C16", "kind=matrix-entry-out-of-range");
+		/* each check has its own repair symbol */
+		for (i = 0; i < r && !bad; i++) { int c = 0; for (j = k; j < n; j++) c += bm_get (H, i, j); if (c != 1) { viol ("C16", "kind=check-without-exactly-one-repair-symbol"); bad = 1; } }
+		for (j = k; j < n && !bad; j++) { int c = 0; for (i = 0; i < r; i++) c += bm_get (H, i, j); if (c != 1) { viol ("C16", "kind=repair-symbol-not-in-exactly-one-check"); bad = 1; } }
+		/* every source symbol is in exactly two checks */
+		for (j = 0; j < k && !bad; j++) { colw = 0; for (i = 0; i < r; i++) colw += bm_get (H, i, j); if (colw != 2) { snprintf (sig, sizeof sig, "kind=source-symbol-in-%d-checks-instead-of-2", colw); viol ("C16", sig); bad = 1; } }
+		if (nent != k * 2 + r && !bad) { viol ("C16", "kind=wrong-number-of-entries"); bad = 1; }
+		/* two classes of checks (row / column checks): 2-colour the graph "two checks share a source" */
+		if (!bad) {
+			memset (shared, 0, sizeof shared);
+			for (j = 0; j < k; j++) { a = b = -1; for (i = 0; i < r; i++) if (bm_get (H, i, j)) { if (a < 0) a = i; else b = i; } shared[a][b]++; shared[b][a]++; }
+			for (i = 0; i < r; i++) cls[i] = -1;
+			for (i = 0; i < r; i++) {
+				if (cls[i] >= 0) continue;
+				cls[i] = 0;
+				do {
+					changed = 0;
+					for (a = 0; a < r; a++) for (b = 0; b < r; b++) if (shared[a][b] && cls[a] >= 0 && cls[b] < 0) { cls[b] = 1 - cls[a]; changed = 1; }
+				} while (changed);
+			}
+			for (a = 0; a < r && !bad; a++) for (b = 0; b < r && !bad; b++) {
+				if (a == b) continue;
+				if (cls[a] == cls[b] && shared[a][b]) { viol ("C16", "kind=checks-do-not-split-into-row-and-column-classes"); bad = 1; }
+				if (cls[a] != cls[b] && shared[a][b] != 1) { snprintf (sig, sizeof sig, "kind=row-check-and-column-check-share-%d-sources-instead-of-1", shared[a][b]); viol ("C16", sig); bad = 1; }
+			}
+			if (!bad) { int c0 = 0, c1 = 0; for (i = 0; i < r; i++) if (cls[i]) c1++; else c0++; if (c0 * c1 != k || c0 + c1 != r) { viol ("C16", "kind=not-a-d-x-l-product"); bad = 1; } else { char nm[48]; snprintf (nm, sizeof nm, "2d:product:%dx%d", c0 < c1 ? c0 : c1, c0 < c1 ? c1 : c0); vf_outcome (nm, 1); } }
+		}
+		/* encoder satisfies every check, both slot modes */
+		{
+			pt_t q = *p; unsigned char **src = malloc (sizeof (void *) * (size_t) (k ? k : 1)), **pri = malloc (sizeof (void *) * (size_t) (k ? k : 1));
+			q.codec = 5; q.len = len;
+			for (i = 0; i < k; i++) { src[i] = malloc ((size_t) len); pri[i] = malloc ((size_t) len); fill_source (&q, i, src[i]); memcpy (pri[i], src[i], (size_t) len); }
+			for (mode = 0; mode < 2; mode++) {
+				void **tab = calloc ((size_t) n, sizeof (void *)); unsigned char **mine = calloc ((size_t) n, sizeof (void *));
+				int failed = 0, bb;
+				for (i = 0; i < k; i++) tab[i] = src[i];
+				for (i = k; i < n; i++) if (mode == 0) { mine[i] = malloc ((size_t) len); memset (mine[i], 0x5A, (size_t) len); tab[i] = mine[i]; }
+				for (j = k; j < n; j++) {
+					snprintf (vf_slot (), VF_SLOT_LEN, "%s build esi=%d slot=%s", g_case, j, mode ? "null" : "buffer");
+					if (of_build_repair_symbol (s, tab, (UINT32) j) != OF_STATUS_OK || !tab[j]) { snprintf (sig, sizeof sig, "call=build|kind=failed|slot=%s", mode ? "null" : "buffer"); viol ("C16", sig); failed = 1; break; }
+					vf_stat_add (st_trans, 1);
+				}
+				for (i = 0; i < k; i++) if (memcmp (src[i], pri[i], (size_t) len)) { viol ("C16", "call=build|kind=source-buffer-modified"); memcpy (src[i], pri[i], (size_t) len); }
+				if (!failed)
+					for (i = 0; i < r; i++) {
+						unsigned char acc[64]; memset (acc, 0, sizeof acc);
+						for (j = 0; j < n; j++) if (bm_get (H, i, j)) for (bb = 0; bb < len && bb < 64; bb++) acc[bb] ^= ((unsigned char *) tab[j])[bb];
+						for (bb = 0; bb < len && bb < 64; bb++) if (acc[bb]) { viol ("C16", "kind=encoder-output-violates-a-check"); i = r; break; }
+					}
+				for (j = k; j < n; j++) { if (mode == 1 && tab[j]) free (tab[j]); free (mine[j]); }
+				free (tab); free (mine);
+			}
+			for (i = 0; i < k; i++) { free (src[i]); free (pri[i]); }
+			free (src); free (pri);
+		}
+		bm_free (H);
+	}
+	of_release_codec_instance (s);
+	vf_stat_add (st_points, 1);
+}
+
 static void item (long it, void *arg)
 {
 	(void) arg;
 	vf_slot_set_prop (PROP);
 	if (vf_deadline_hit ()) { static int said; if (!said) { said = 1; vf_incomplete ("deadline reached at point %ld of %ld", it, NPT); } return; }
-	if (PT[it].codec == 3) ldpc_point (&PT[it]); else rs_point (&PT[it]);
+	if (PT[it].codec == 5) p2d_point (&PT[it]); else if (PT[it].codec == 3) ldpc_point (&PT[it]); else rs_point (&PT[it]);
 	vf_stat_add (st_states, 1);
 }
 
@@ -343,6 +445,7 @@ static void item_replay (long it, void *arg)
 	memset (&p, 0, sizeof p);
 	if (sscanf (cs, "rs codec=%d m=%d k=%d n=%d len=%d", &p.codec, &p.m, &p.k, &p.n, &p.len) == 5) { p.r = p.n - p.k; rs_point (&p); }
 	else if (sscanf (cs, "ldpc k=%d r=%d N1=%d seed=%d len=%d prefix=%d", &p.k, &p.r, &p.N1, &p.seed, &p.len, &p.prefix) == 6) { p.codec = 3; p.n = p.k + p.r; ldpc_point (&p); }
+	else if (sscanf (cs, "2d k=%d r=%d", &p.k, &p.r) == 2) { p.codec = 5; p.n = p.k + p.r; p2d_point (&p); }
 	else vf_viol ("MACHINERY", "kind=bad-replay-case", "%s", cs);
 }
 
@@ -368,6 +471,8 @@ int main (int argc, char **argv)
 			for (n = 2; n <= (thorough ? 24 : 12); n++) for (k = 1; k < n; k++) add_pt (codec, 8, k, n - k, 0, 0, k + 4, 0);
 		}
 		for (i = 0; i < (int) (sizeof lens / sizeof lens[0]); i++) { add_pt (1, 8, 5, 4, 0, 0, lens[i], 0); add_pt (2, 8, 5, 4, 0, 0, lens[i], 0); add_pt (2, 4, 5, 4, 0, 0, lens[i], 0); add_pt (2, 4, 14, 1, 0, 0, lens[i], 0); add_pt (1, 8, 17, 3, 0, 0, lens[i], 0); }
+	} else if (!strcmp (mode, "2d")) {
+		for (k = 0; k <= 17; k++) for (r = 0; r <= 26; r++) add_pt (5, 0, k, r, 0, 0, k + 2, 0);
 	} else {
 		static const int kt[] = {1, 2, 3, 4, 5, 6, 7, 8, 9, 10, 11, 12, 16, 20, 32, 50, 100, 255, 1000}, rt[] = {3, 4, 5, 6, 7, 8, 9, 10, 11, 12, 16, 32, 100, 500};
 		static const int seeds_t[] = {1, 2, 3, 1000, 16807, 2147483645, 2147483646}, seeds_q[] = {1, 2, 2147483646};
